@@ -160,6 +160,8 @@ class Runner:
                 c = g[0]
                 r = got.get(c['id'])
                 rec = {'case': c, 'result': r, 'rc': rc, 'timeout': to, 'signal': _signame(rc), 'secs': secs}
+                md = re.search(r'@deadlock (-?\d+) ([^\n]*)', err)
+                if md: rec['deadlock'] = md.group(2)
                 if rc != 0 or to or r is None or 'Sanitizer' in err or 'runtime error' in err:
                     rec['stderr'] = err[-12000:]
                     rec['san'] = summarize_sanitizer(err)
@@ -170,6 +172,13 @@ class Runner:
                     for c in g:
                         res[c['id']] = {'case': c, 'result': got[c['id']], 'rc': 0, 'timeout': False, 'signal': None, 'secs': secs / len(g)}
                 else:
+                    # a deadlock reported by the probe's own watch thread names its case
+                    md = re.search(r'@deadlock (-?\d+) ([^\n]*)', err)
+                    if md:
+                        did = int(md.group(1))
+                        for c in g:
+                            if c['id'] == did:
+                                res[did] = {'case': c, 'result': None, 'rc': rc, 'timeout': False, 'signal': None, 'secs': secs, 'deadlock': md.group(2), 'stderr': err[-3000:]}
                     # keep the results that were completed before the failure, re-run the rest one by one
                     done_ids = set(got.keys())
                     m = re.findall(r'@case (-?\d+)', err)
